@@ -23,6 +23,7 @@ type rtCase struct {
 	MustErr  bool        `json:"must_err,omitempty"`
 	ResponseRaw json.RawMessage `json:"-"`
 	HelperLeg bool       `json:"helper_leg,omitempty"`
+	Vars      json.RawMessage `json:"vars,omitempty"` // C06 input leg: the variables object decoded into the operation's input struct
 }
 
 func bindingFor(c *conv.Case) func(string) string {
@@ -256,6 +257,39 @@ func run(prop, tier string, seed int64, outDir, replay string) (*core.Result, er
 					break
 				}
 			}
+			// C06, "all valid variable objects": decode a variables object into the generated input
+			// struct, marshal, decode again
+			if prop == "C06" && len(doc.Operations) > 0 && (replayCase == nil || replayCase.Vars != nil) {
+				nIn := 3
+				if tier == "thorough" {
+					nIn = 8
+				}
+				for k := 0; k < nIn; k++ {
+					var raw []byte
+					if replayCase != nil {
+						if replayCase.Op != op {
+							break
+						}
+						raw = replayCase.Vars
+					} else {
+						vars := randVariables(rng, p.Ex.Schema, doc.Operations[0])
+						if vars == nil {
+							break
+						}
+						if err, panicked := coerce(p.Ex.Schema, doc.Operations[0], vars); err != nil || panicked {
+							res.Dist("input-leg:variables-rejected-by-the-coercion-oracle")
+							continue
+						}
+						raw, _ = json.Marshal(vars)
+					}
+					id := fmt.Sprintf("%s/%s/in%d", p.Name, op, k)
+					metas[id] = &meta{p: p, op: op, doc: doc, raw: raw}
+					tasks = append(tasks, &Task{ID: id, Prog: p.Name, Op: op, Kind: "inputrt", JSON: raw})
+					if replayCase != nil {
+						break
+					}
+				}
+			}
 			// C19: a sweep over the abstract positions of one response, each with a bad __typename
 			if prop == "C19" && replayCase == nil {
 				resp := GenResponse(rng, p.Ex.Schema, doc, bindingFor(p.Case), 0.05)
@@ -288,6 +322,56 @@ func run(prop, tier string, seed int64, outDir, replay string) (*core.Result, er
 			continue
 		}
 		res.Count(string(m.raw)+m.p.Name+m.op, true)
+		if t.Kind == "inputrt" {
+			res.Dist("input-leg:decoded")
+			if replay != "" {
+				out, _ := json.MarshalIndent(r, "", " ")
+				fmt.Printf("result: %s\n", out)
+			}
+			rp := &rtCase{Case: m.p.Case, Op: m.op, Vars: m.raw}
+			failIn := func(class, what string) {
+				res.Fail(core.Failure{Case: t.ID, Class: class, What: what, Replay: rp})
+			}
+			switch {
+			case strings.HasPrefix(r.Err, "harness:"):
+				res.Dist("input-leg:" + r.Err)
+			case r.Panic != "" || r.Timeout:
+				failIn("C06/input-panic-or-hang", "decoding a valid variables object into "+r.InputType+" panicked or hung: "+r.Panic)
+			case r.Err != "":
+				failIn("C06/input-decode-error", fmt.Sprintf("the valid variables object %.300s failed to decode into %s: %s", m.raw, r.InputType, r.Err))
+			case r.ReErr != "":
+				failIn("C06/input-marshal-error", "marshaling the decoded input value failed: "+r.ReErr)
+			case r.Round2Err != "":
+				failIn("C06/input-redecode-error", "unmarshaling the re-marshaled input failed: "+r.Round2Err)
+			case !r.RoundTrip:
+				diff := dumpDiff("v", r.Dump, r.Dump2)
+				class := "C06/input-redecode-differs"
+				if strings.HasSuffix(diff, "slice vs nilslice") {
+					// an EMPTY list under omitempty is left out and comes back as nil
+					class = "C06/input-redecode-differs/omitempty-empty-list"
+				}
+				failIn(class, fmt.Sprintf("variables %.300s: unmarshal(marshal(v)) is not deeply equal to v: %s (re-marshaled: %.300s)", m.raw, diff, r.Remarshal))
+			}
+			// the same observation for the in-kernel model
+			if jt, err := jsonTerm(m.raw, nt); err == nil && r.Panic == "" && !r.Timeout && !strings.HasPrefix(r.Err, "harness:") && r.InputType != "" {
+				rr := "RErr"
+				if r.Err == "" {
+					rr = "(ROk " + dumpTerm(deref(r.Dump), nt) + ")"
+				}
+				re := "None"
+				if r.Err == "" && r.ReErr == "" && r.Remarshal != "" {
+					if t2, err := jsonTerm([]byte(r.Remarshal), nt); err == nil {
+						re = "(Some " + t2 + ")"
+					}
+				}
+				term := fmt.Sprintf("{| ro_type := %s; ro_json := %s; ro_result := %s; ro_remarshal := %s |}", coqStr(r.InputType), jt, rr, re)
+				if len(term) <= 60000 {
+					obsTerms[m.p.Name] = append(obsTerms[m.p.Name], term)
+					modelObs++
+				}
+			}
+			continue
+		}
 		if jt, err := jsonTerm(m.raw, nt); err == nil && !r.Timeout {
 			rr := "RErr"
 			switch {
